@@ -48,6 +48,26 @@ def run(ctx):
         ir, auxinfo = irgen.gen_ir(g, ctx.rng, cov)
         bs = protocheck.writer_stream(ctx, g, batch, ir, auxinfo, "W%d" % i)
         ctx.case(repr(bs), bs is not None and len(bs) > 60)
+        if bs is not None and i % 2 == 0:
+            # the same IR written AGAIN after in-place edits of the objects it already holds (one to three changes from the catalogue
+            # of C18: every compared field of every class): each field of the second file carries the attribute's value as it is now
+            from props import c18
+            applied = []
+            for _ in range(ctx.rng.choice([1, 2, 3])):
+                P = [(nm, f) for nm, f in c18.perturbations(g, ctx.rng, ir) if not any(w in nm for w in ("aux", "removed", "swapped", "module-added", "uuid"))]
+                if not P:
+                    break
+                nm, f = ctx.rng.choice(P)
+                try:
+                    if f() is not False:
+                        applied.append(nm)
+                except Exception:  # noqa: BLE001
+                    pass
+            if applied and not protocheck.is_d7(g, ir):
+                ctx.count("second_save_after_edits")
+                n0 = len(ctx.findings) if hasattr(ctx, "findings") else None
+                bs2 = protocheck.writer_stream(ctx, g, batch, ir, auxinfo, "W%d after %s" % (i, "+".join(applied)))
+                ctx.case(repr(bs2), True)
     enum_by_name_oracle(ctx, g)
     aux_field_scenarios(ctx, g)
     for tag, m in enum_sweep_messages(enums):
